@@ -77,6 +77,30 @@ theorem apply_step (y : Sys) (g : Good y.s) (op : Op) (hp : op.plain = true) (ho
       · exact Step.refl g
       · rename_i hk
         exact (imul_step y g r (by simpa using hr) k hk).1
+  | addRxnR r lb ub ps rule =>
+    simp only [apply]
+    split
+    · exact Step.refl g
+    · rename_i hlt
+      split
+      · exact Step.refl g
+      · rename_i hnew
+        split
+        · exact Step.refl g
+        · rename_i hin
+          split
+          · rename_i hcond
+            simp only [Bool.and_eq_true, decide_eq_true_eq, List.all_eq_true] at hcond
+            have hnew' : y.s.hasR r = false := by simpa using hnew
+            have hle : EB.le lb ub = true := EB.not_lt_le (by simpa using hlt)
+            have hc : y.ctx = [] := by
+              cases h : y.ctx with
+              | nil => rfl
+              | cons c cs => simp [inCtx, h] at hin
+            have hgood := addRxnRaw_good g r lb ub ps hnew' hle hcond.1.1 (fresh_of_freshNames g.wf r hcond.1.2) (fun p hp => (hcond.2 p hp).1)
+            have hhas : (addRxnRaw y.s r lb ub ps).hasR r = true := by simp [addRxnRaw, putSlot, upd]
+            exact ⟨setRuleRaw_good hgood r hhas rule, by simp [hc]⟩
+          · exact Step.refl g
   | addBoundary m t ext dlb dub =>
     simp only [apply]
     split
